@@ -295,8 +295,8 @@ TIE_FILES = ("prims/FastPathGen.v", "prims/FastPathGenEq.v", "prims/LockGen.v", 
 def check(tier: str) -> int:
     rep = core.Report("C08", tier)
     rep.assumptions = core.TRUSTED_BASE_COMMON + [
-        "the shape table prims/FastPath.v: 13 rows are regenerated from /repo's source on every run by the fail-closed translator tools/translate_fastpath.py and proved equal to the table (FastPathGenEq.v); all rows are additionally validated against the real operations on stock asyncio, eager task factory and uvloop",
-        "rows 5-7 (Lock / Semaphore / CapacityLimiter acquire) are ALSO proved on the regenerated code: the entry segments that tools/translate_lock.py / translate_prims.py regenerate on this run, interpreted (LockImp.exec / PrimImp.exec) with the caller's scope effectively cancelled at entry, end at the cancellation check with nothing changed (C08_tie_lock/sem/lim_cancelled_entry_noeffect, C08_tie_cond_wait_cancelled_entry_noeffect for row 9, C08_tie_mem_cancelled_entry_noeffect for rows 10-13 (the first statement of send/receive is a full checkpoint); for the limiter for every state and borrower, the check precedes both RuntimeError tests; for Lock/Semaphore on the uncontended path, the contended path has no check and behaves as the live call); the interpreters treat an effect before the check as stuck. Trusted there: the translators' mapping and the reading of a fresh checkpoint_if_cancelled() (raises when the scope is effectively cancelled: C08_ckif_suspends_iff_effectively_cancelled, C03_ckif_spin_terminates on the S machine; no-op otherwise)",
+        "the shape table prims/FastPath.v: 13 rows are regenerated from /repo's source on every run by the fail-closed translator tools/translate_fastpath.py; 11 are proved equal to the table, for 2 (row 9 Condition.wait, row 14 to_thread.run_sync) the regenerated entry segment is proved to be a check-first prefix of the table row (FastPathGenEq.v); all rows are additionally validated against the real operations on stock asyncio, eager task factory and uvloop",
+        "rows 5-7 (Lock / Semaphore / CapacityLimiter acquire) are ALSO proved on the regenerated code: the entry segments that tools/translate_lock.py / translate_prims.py regenerate on this run, interpreted (LockImp.exec / PrimImp.exec) with the caller's scope effectively cancelled at entry, end at the cancellation check with nothing changed (C08_tie_lock/sem/lim_cancelled_entry_noeffect, C08_tie_cond_wait_cancelled_entry_noeffect for row 9, C08_tie_mem_cancelled_entry_noeffect for rows 10-13 (the first statement of send/receive is a full checkpoint); for the limiter for every state and borrower, the check precedes both RuntimeError tests; since the F53 fix for Lock and Semaphore for every state too: the check is the first statement on both paths, C08_tie_sem_cancelled_entry_check_first / C09_tie_acquire_entry_check_first); these theorems cover the outcome 'the cancellation stays visible until delivered' only, the yield-then-return outcome of the check is modelled in C09 (LockEntry) and C10 (AcqBeginC / CkPass); LockImp / PrimImp / CondImp treat an effect before the check as stuck, MemImp performs it visibly. Trusted there: the translators' mapping and the reading of a fresh checkpoint_if_cancelled() (raises when the scope is effectively cancelled: C08_ckif_suspends_iff_effectively_cancelled, C03_ckif_spin_terminates on the S machine; no-op otherwise)",
         "functools.reduce: rows 18 (non-yielding reducer over a non-empty input) and 22 (zero invocations); before the F22 fix reduce delegated its checkpoint to the awaited callback",
         "states in which the operation must really wait are governed by C03",
     ]
